@@ -478,4 +478,190 @@ theorem ranges_conform (h : Header) (wf : h.WF) (content : Bytes) :
       rw [this.1, this.2.2.2.2]
     | r1 :: r2 :: rest, hg => exact (serve_multi _ content r1 r2 rest hg).1
 
+/-! ## G. only the grammar is honoured: every other header text is ignored -/
+
+theorem parseTokens_not_bad (len : Nat) (a b : Text) (h : parseTokens len a b ≠ .bad) :
+    (IsNum a ∧ IsNum b) ∨ (IsNum a ∧ b = []) ∨ (a = [] ∧ IsNum b) := by
+  cases a with
+  | nil =>
+    cases b with
+    | nil => simp [parseTokens] at h
+    | cons y ys =>
+      cases hb : rangePos (y :: ys) with
+      | none => simp [parseTokens, hb] at h
+      | some n => exact Or.inr (Or.inr ⟨rfl, (rangePos_some _ n hb).1⟩)
+  | cons x xs =>
+    cases ha : rangePos (x :: xs) with
+    | none => simp [parseTokens, ha] at h
+    | some s =>
+      have hna := (rangePos_some _ s ha).1
+      cases b with
+      | nil => exact Or.inr (Or.inl ⟨hna, rfl⟩)
+      | cons y ys =>
+        cases hb : rangePos (y :: ys) with
+        | none => simp [parseTokens, ha, hb] at h
+        | some n => exact Or.inl ⟨hna, (rangePos_some _ n hb).1⟩
+
+theorem parseSpec_not_bad (len : Nat) (it : Text) (h : parseSpec len it ≠ .bad) :
+    ∃ p : PSpec, p.WF ∧ p.render = it := by
+  unfold parseSpec at h
+  split at h
+  · exact absurd rfl h
+  · rename_i _ a b hs
+    obtain ⟨hit, _⟩ := split1_some '-' it a b hs
+    obtain ⟨w1, w2, h1, h2, ea⟩ := strip_decomp a
+    obtain ⟨w3, w4, h3, h4, eb⟩ := strip_decomp b
+    rcases parseTokens_not_bad len _ _ h with ⟨na, nb⟩ | ⟨na, nb⟩ | ⟨na, nb⟩
+    · refine ⟨⟨.fromTo (strip a) (strip b), w1, w2, w3, w4⟩, ⟨⟨na, nb⟩, h1, h2, h3, h4⟩, ?_⟩
+      simp only [PSpec.render, renderItem]
+      rw [← ea, ← eb, hit]
+    · refine ⟨⟨.from_ (strip a), w1, w2, w3, w4⟩, ⟨na, h1, h2, h3, h4⟩, ?_⟩
+      simp only [PSpec.render, renderItem]
+      rw [nb] at eb
+      rw [← ea, ← eb, hit]
+    · refine ⟨⟨.suffix (strip b), w1, w2, w3, w4⟩, ⟨nb, h1, h2, h3, h4⟩, ?_⟩
+      simp only [PSpec.render, renderItem]
+      rw [na] at ea
+      rw [← ea, ← eb, hit]
+
+theorem lift_items (len : Nat) (l : List Text) (h : ∀ it ∈ l, parseSpec len it ≠ .bad) :
+    ∃ ps : List PSpec, ps.map PSpec.render = l ∧ ∀ p ∈ ps, p.WF := by
+  induction l with
+  | nil => exact ⟨[], rfl, by simp⟩
+  | cons it r ih =>
+    obtain ⟨ps, hps, hwf⟩ := ih (fun x m => h x (List.mem_cons_of_mem _ m))
+    obtain ⟨p, hp, hr⟩ := parseSpec_not_bad len it (h it (by simp))
+    refine ⟨p :: ps, by simp [hr, hps], ?_⟩
+    intro q m
+    cases List.mem_cons.mp m with
+    | inl e => rw [e]; exact hp
+    | inr m' => exact hwf q m'
+
+/-- **Only the grammar is honoured.**  If `get_ranges` honours a header text (returns a list, be it
+    empty), that text is a well-formed header of the byte-range grammar above. -/
+theorem honoured_only_grammar (t : Text) (len : Nat) (rs : List (Nat × Nat))
+    (h : getRanges (some t) len = some rs) : ∃ hd : Header, hd.WF ∧ hd.render = t := by
+  rw [getRanges_some] at h
+  unfold getRangesText at h
+  split at h
+  · cases h
+  · rename_i _ u br hs
+    split at h
+    · cases h
+    · rename_i hunit
+      have hunit' : isBytesUnit (strip u) = true := by simpa using hunit
+      obtain ⟨ht, _⟩ := split1_some '=' t u br hs
+      obtain ⟨w1, w2, h1, h2, eu⟩ := strip_decomp u
+      rw [loop_eq] at h
+      have hnb : Item.bad ∉ (splitAll ',' br).map (parseSpec len) := by
+        intro m
+        rw [(collect_none_iff _).mpr m] at h
+        cases h
+      obtain ⟨ps, hps, hwf⟩ := lift_items len (splitAll ',' br) (by
+        intro it m e
+        exact hnb (List.mem_map.mpr ⟨it, m, e⟩))
+      refine ⟨⟨w1, strip u, w2, ps⟩, ⟨h1, h2, hunit', ?_, hwf⟩, ?_⟩
+      · intro e
+        have e' : ps = [] := e
+        rw [e'] at hps
+        simp [splitAll] at hps
+      · simp only [Header.render]
+        rw [hps, join_splitAll, ← eu, ht]
+
+/-- **C16_invalid_ignored.**  A header text outside the grammar is ignored, for every length. -/
+theorem invalid_ignored (t : Text) (len : Nat) (h : ¬ ∃ hd : Header, hd.WF ∧ hd.render = t) :
+    getRanges (some t) len = none := by
+  cases hr : getRanges (some t) len with
+  | none => rfl
+  | some rs => exact absurd (honoured_only_grammar t len rs hr) h
+
+/-- a grammatical header with one invalid spec (last-byte-pos < first-byte-pos) is ignored too,
+    wherever the entity ends -/
+theorem invalid_spec_ignored (h : Header) (wf : h.WF) (len : Nat)
+    (p : PSpec) (hp : p ∈ h.items) (a b : Text) (hs : p.spec = .fromTo a b) (hlt : decVal b < decVal a) :
+    getRanges (some h.render) len = none := by
+  rw [getRanges_grammar h wf len, specRanges, collect_none_iff]
+  refine List.mem_map.mpr ⟨p.spec, List.mem_map.mpr ⟨p, hp, rfl⟩, ?_⟩
+  simp [hs, Spec.sem, hlt, Sem.toItem]
+
+/-- exact characterisation: a header text is honoured iff it is in the grammar and none of its
+    specs has last-byte-pos < first-byte-pos -/
+theorem honoured_iff (t : Text) (len : Nat) :
+    (getRanges (some t) len).isSome = true ↔
+      ∃ hd : Header, hd.WF ∧ hd.render = t ∧ ∀ p ∈ hd.items, p.spec.sem len ≠ .invalid := by
+  constructor
+  · intro h
+    cases hr : getRanges (some t) len with
+    | none => rw [hr] at h; cases h
+    | some rs =>
+      obtain ⟨hd, wf, e⟩ := honoured_only_grammar t len rs hr
+      refine ⟨hd, wf, e, ?_⟩
+      intro p hp hinv
+      rw [← e, getRanges_grammar hd wf len] at hr
+      have : Item.bad ∈ (hd.items.map PSpec.spec).map fun s => (s.sem len).toItem :=
+        List.mem_map.mpr ⟨p.spec, List.mem_map.mpr ⟨p, hp, rfl⟩, by simp [hinv, Sem.toItem]⟩
+      rw [specRanges, (collect_none_iff _).mpr this] at hr
+      cases hr
+  · rintro ⟨hd, wf, e, hv⟩
+    rw [← e, getRanges_grammar hd wf len, specRanges]
+    cases hc : collect ((hd.items.map PSpec.spec).map fun s => (s.sem len).toItem) with
+    | some _ => rfl
+    | none =>
+      have := (collect_none_iff _).mp hc
+      obtain ⟨s, hs, hbad⟩ := List.mem_map.mp this
+      obtain ⟨p, hp, rfl⟩ := List.mem_map.mp hs
+      exfalso
+      apply hv p hp
+      cases hsem : p.spec.sem len with
+      | invalid => rfl
+      | unsat => rw [hsem] at hbad; cases hbad
+      | sat a b => rw [hsem] at hbad; cases hbad
+
+/-- **C16_suffix_zero.**  `bytes=-0` (any spelling of zero, any whitespace) selects nothing: alone it
+    is unsatisfiable (416), for every entity length. -/
+theorem suffix_zero (h : Header) (wf : h.WF) (len : Nat) (p : PSpec) (hi : h.items = [p])
+    (n : Text) (hs : p.spec = .suffix n) (hz : decVal n = 0) :
+    getRanges (some h.render) len = some [] := by
+  rw [getRanges_grammar h wf len, hi]
+  simp [specRanges, hs, Spec.sem, hz, Sem.toItem, collect]
+
+/-- any suffix on an empty entity is unsatisfiable -/
+theorem suffix_on_empty (h : Header) (wf : h.WF) (p : PSpec) (hi : h.items = [p])
+    (n : Text) (hs : p.spec = .suffix n) : getRanges (some h.render) 0 = some [] := by
+  rw [getRanges_grammar h wf 0, hi]
+  simp [specRanges, hs, Spec.sem, Sem.toItem, collect]
+
+/-- an empty entity has no satisfiable range at all: every honoured header yields 416 -/
+theorem empty_entity_unsat (t : Text) (rs : List (Nat × Nat)) (h : getRanges (some t) 0 = some rs) :
+    rs = [] := by
+  cases rs with
+  | nil => rfl
+  | cons p r =>
+    have := ranges_in_bounds (some t) 0 _ h p (by simp)
+    omega
+
+/-! ### non-vacuity and the recorded witnesses (F17, F17b) on the model -/
+
+def hdrExample : Header :=
+  ⟨[' '], "Bytes".toList, [], [⟨.fromTo "002".toList "5".toList, [], [' '], [], ['\t']⟩,
+                               ⟨.suffix "3".toList, [' '], [], [], []⟩, ⟨.from_ "10".toList, [], [], [], []⟩]⟩
+
+example : hdrExample.render = " Bytes=002 -5\t, -3,10-".toList := by decide
+example : isBytesUnit hdrExample.unit = true := by decide
+example : specRanges 14 (hdrExample.items.map PSpec.spec) = some [(2, 6), (11, 14), (10, 14)] := by decide
+example : getRanges (some hdrExample.render) 14 = some [(2, 6), (11, 14), (10, 14)] := by decide
+
+example : getRanges (some "bytes=2-5,10-999".toList) 14 = some [(2, 6), (10, 14)] := by decide
+example : getRanges (some "bytes=-0".toList) 14 = some [] := by decide
+example : getRanges (some "chars=0-1".toList) 14 = none := by decide
+example : getRanges (some "bytes=abc".toList) 14 = none := by decide
+example : getRanges (some "bytes".toList) 14 = none := by decide
+example : getRanges (some "bytes=1-x".toList) 14 = none := by decide
+example : getRanges (some "bytes=100-50".toList) 14 = none := by decide
+example : getRanges (some "bytes=20-10,0-1".toList) 14 = none := by decide
+example : getRanges (some "bytes=٠-١".toList) 14 = none := by decide
+example : getRanges (some "bytes=0-1,,2-3".toList) 14 = none := by decide
+example : getRanges (some "bytes=-5".toList) 0 = some [] := by decide
+example : getRanges (some "bytes=20-".toList) 14 = some [] := by decide
+
 end CpProofs.C16
